@@ -23,80 +23,93 @@ macro_rules! driver {
     ($name:ident, $modv:ident, $mk:expr, $read:expr, $write:expr, $connack:expr, $publish:expr) => {
         async fn $name(k: u64, sched: &Value, queue: Queue, out: &mut Vec<Value>) {
             let (client, mut el) = $mk(k);
-            let (c_end, mut b_end) = tokio::io::duplex(1 << 20);
-            queue.borrow_mut().push_back(c_end);
             let stall = sched["stall"].as_bool().unwrap_or(false);
             let delays: Vec<u64> = sched["delays"].as_array().unwrap().iter().map(|x| x.as_u64().unwrap()).collect();
             let horizon = sched["horizon"].as_u64().unwrap();
+            let max_conns = sched["conns"].as_u64().unwrap_or(1);
             let traffic: Vec<u64> = sched["traffic"].as_array().map(|a| a.iter().map(|x| x.as_u64().unwrap()).collect()).unwrap_or_default();
-            let t0 = Instant::now();
-            if stall {
-                let r = el.poll().await;
-                let elapsed = (Instant::now() - t0).as_millis() as u64;
-                let err = match r { Ok(_) => "none".to_string(), Err(e) => format!("{e:?}").split(|c: char| !c.is_alphanumeric()).next().unwrap_or("").to_string() };
-                out.push(json!({"ev": "stalled", "elapsed_ms": elapsed, "elapsed": elapsed / 1000, "exact": elapsed % 1000 == 0, "err": err}));
-                return;
-            }
-            let hs = async {
-                let mut buf = BytesMut::new();
-                loop {
-                    if $read(&mut buf).is_some() { break; }
-                    if b_end.read_buf(&mut buf).await.unwrap_or(0) == 0 { return; }
-                }
-                let mut w = BytesMut::new();
-                $connack(&mut w);
-                let _ = b_end.write_all(&w).await;
-            };
-            let (r, _) = tokio::join!(el.poll(), hs);
-            out.push(json!({"ev": "connected", "ok": r.is_ok(), "elapsed_ms": (Instant::now() - t0).as_millis() as u64}));
-            if r.is_err() { return; }
-            let t1 = Instant::now();
-            let mut rbuf = BytesMut::new();
             let mut npings = 0usize;
-            let mut due: Vec<u64> = Vec::new(); // ticks at which a PINGRESP has to be written
-            let mut dead = false;
-            for tick in 1..=horizon {
-                let start = t1 + Duration::from_secs(tick);
-                tokio::time::sleep_until(start).await;
-                let mut reply = false;
-                if due.contains(&tick) {
-                    due.retain(|x| *x != tick);
-                    let mut w = BytesMut::new();
-                    $write(&pk("pingresp", 0, 0, 0), &mut w);
-                    let _ = b_end.write_all(&w).await;
-                    reply = true;
+            let mut used = 0u64;      // ticks of the horizon used by earlier connections
+            let mut conns = 0u64;
+            loop {
+                conns += 1;
+                let (c_end, mut b_end) = tokio::io::duplex(1 << 20);
+                queue.borrow_mut().push_back(c_end);
+                let t0 = Instant::now();
+                if stall && conns == 1 {
+                    let r = el.poll().await;
+                    let elapsed = (Instant::now() - t0).as_millis() as u64;
+                    let err = match r { Ok(_) => "none".to_string(), Err(e) => format!("{e:?}").split(|c: char| !c.is_alphanumeric()).next().unwrap_or("").to_string() };
+                    out.push(json!({"ev": "stalled", "elapsed_ms": elapsed, "elapsed": elapsed / 1000, "exact": elapsed % 1000 == 0, "err": err}));
+                    return;
                 }
-                if traffic.contains(&tick) { $publish(&client); }
-                let mut ping = false;
-                let mut fail = "none".to_string();
-                // everything the event loop does in this tick (the window ends half a tick later)
-                loop {
-                    match tokio::time::timeout_at(start + Duration::from_millis(500), el.poll()).await {
-                        Err(_) => break,
-                        Ok(Ok(_)) => {}
-                        Ok(Err(e)) => { fail = $modv::loop_err(&e); dead = true; break; }
-                    }
-                    // what reached the broker so far
+                let hs = async {
+                    let mut buf = BytesMut::new();
                     loop {
-                        match tokio::time::timeout(Duration::ZERO, b_end.read_buf(&mut rbuf)).await { Ok(Ok(n)) if n > 0 => continue, _ => break }
+                        if $read(&mut buf).is_some() { break; }
+                        if b_end.read_buf(&mut buf).await.unwrap_or(0) == 0 { return; }
                     }
-                    while let Some(p) = $read(&mut rbuf) {
-                        if p.t == "pingreq" {
-                            ping = true;
-                            let d = delays.get(npings).copied().unwrap_or(NEVER);
-                            npings += 1;
-                            if d == 0 {
-                                let mut w = BytesMut::new();
-                                $write(&pk("pingresp", 0, 0, 0), &mut w);
-                                let _ = b_end.write_all(&w).await;
-                            } else if d != NEVER {
-                                due.push(tick + d);
+                    let mut w = BytesMut::new();
+                    $connack(&mut w);
+                    let _ = b_end.write_all(&w).await;
+                };
+                let (r, _) = tokio::join!(el.poll(), hs);
+                out.push(json!({"ev": "connected", "ok": r.is_ok(), "elapsed_ms": (Instant::now() - t0).as_millis() as u64}));
+                if r.is_err() { return; }
+                let t1 = Instant::now();
+                let mut rbuf = BytesMut::new();
+                let mut due: Vec<u64> = Vec::new(); // ticks at which a PINGRESP has to be written
+                let mut dead = false;
+                let mut last = 0u64;
+                for tick in 1..=(horizon - used) {
+                    last = tick;
+                    let start = t1 + Duration::from_secs(tick);
+                    tokio::time::sleep_until(start).await;
+                    let mut reply = false;
+                    if due.contains(&tick) {
+                        due.retain(|x| *x != tick);
+                        let mut w = BytesMut::new();
+                        $write(&pk("pingresp", 0, 0, 0), &mut w);
+                        let _ = b_end.write_all(&w).await;
+                        reply = true;
+                    }
+                    if traffic.contains(&(used + tick)) { $publish(&client); }
+                    let mut ping = false;
+                    let mut fail = "none".to_string();
+                    // everything the event loop does in this tick (the window ends half a tick later)
+                    loop {
+                        match tokio::time::timeout_at(start + Duration::from_millis(500), el.poll()).await {
+                            Err(_) => break,
+                            Ok(Ok(_)) => {}
+                            Ok(Err(e)) => { fail = $modv::loop_err(&e); dead = true; break; }
+                        }
+                        // what reached the broker so far
+                        loop {
+                            match tokio::time::timeout(Duration::ZERO, b_end.read_buf(&mut rbuf)).await { Ok(Ok(n)) if n > 0 => continue, _ => break }
+                        }
+                        while let Some(p) = $read(&mut rbuf) {
+                            if p.t == "pingreq" {
+                                ping = true;
+                                let d = delays.get(npings).copied().unwrap_or(NEVER);
+                                npings += 1;
+                                if d == 0 {
+                                    let mut w = BytesMut::new();
+                                    $write(&pk("pingresp", 0, 0, 0), &mut w);
+                                    let _ = b_end.write_all(&w).await;
+                                } else if d != NEVER {
+                                    due.push(tick + d);
+                                }
                             }
                         }
                     }
+                    out.push(json!({"ev": "tick", "t": tick, "ping": ping, "fail": fail, "reply": reply}));
+                    if dead { break; }
                 }
-                out.push(json!({"ev": "tick", "t": tick, "ping": ping, "fail": fail, "reply": reply}));
-                if dead { break; }
+                used += last;
+                // the same event loop connects again (after a reported failure) while the schedule allows another connection
+                if !(dead && conns < max_conns && used < horizon) { break; }
+                // the failure was reported half-way into the tick window at the latest; the next connection starts on the tick boundary
+                out.push(json!({"ev": "reconnect"}));
             }
         }
     };
